@@ -59,6 +59,8 @@ pub struct Entry {
     pub last_write_upsert: bool,
     /// the charged weight was last set by an upsert that requested it explicitly
     pub explicit_weight: bool,
+    /// an explicit weight update was acknowledged since the last comparison with the physical state
+    pub explicit_weight_pending: bool,
 }
 
 #[derive(Clone, Debug, Default, PartialEq, Eq)]
@@ -134,7 +136,7 @@ impl Model {
 
     pub fn insert(&mut self, k: u8, value: u64, weight: i64, deadline: Option<Duration>, id: u64) {
         let incarnation = self.next_incarnation(k);
-        self.held.insert(k, Entry { value, weight, deadline, soft_deleted: false, id, incarnation, last_write_upsert: false, explicit_weight: false });
+        self.held.insert(k, Entry { value, weight, deadline, soft_deleted: false, id, incarnation, last_write_upsert: false, explicit_weight: false, explicit_weight_pending: false });
         self.stats.keys_added += 1;
         self.stats.weight_added = self.stats.weight_added.wrapping_add(weight as u64);
     }
